@@ -331,121 +331,136 @@ def special_worlds(st: infra.Stats):
     def viol(kind, what, **sig):
         st.violation({"signature": dict({"kind": kind}, **sig), "what": what[:400], "graph": kind})
 
-    # -- two deserializers, both registration orders
-    for order in ("int_first", "str_first"):
+    def _guard(title, fn):
+        try:
+            fn()
+        except Exception as e:  # the library raised where the unchanged tree does not
+            viol("world_exception", f"{title}: {e!r}", world=title.split(" ")[0], exc=type(e).__name__)
+        finally:
+            apischema.cache.reset()
+    def _sec_0():  # two deserializers, both registration orders
+        for order in ("int_first", "str_first"):
+            m = exec_source(PRELUDE + SPECIAL)
+            fs = [m.k_from_int, m.k_from_str] if order == "int_first" else [m.k_from_str, m.k_from_int]
+            for fn in fs:
+                apischema.deserializer(fn)
+            for d in (1, "a", None, 1.5, [], True):
+                st.case("two_deserializers", order, repr(d))
+                got = run(lambda: deserialize(m.K, d))
+                alts = [run(lambda fn=fn, S=S: fn(deserialize(S, d))) for fn, S in ((fs[0], int if fs[0] is m.k_from_int else str), (fs[1], int if fs[1] is m.k_from_int else str))]
+                exp = next((a for a in alts if a[0] == "ok"), None)
+                if (exp is None) != (got[0] != "ok") or (exp is not None and got[1] != exp[1]):
+                    viol("two_deserializers", f"{order}: deserialize(K, {d!r}) = {got}, alternatives in registration order give {alts}", order=order)
+            sch = deserialization_schema(m.K)
+            exp_types = ["integer", "string"] if order == "int_first" else ["string", "integer"]
+            if sch.get("type") != exp_types and [a.get("type") for a in sch.get("anyOf", [])] != exp_types:
+                viol("two_deserializers_schema", f"{order}: schema {sch}", order=order)
+            sys.modules.pop(m.__name__, None)
+            apischema.cache.reset()
+    _guard('two deserializers, both registration orders', _sec_0)
+    def _sec_1():  # chain N <- K2 <- int
         m = exec_source(PRELUDE + SPECIAL)
-        fs = [m.k_from_int, m.k_from_str] if order == "int_first" else [m.k_from_str, m.k_from_int]
-        for fn in fs:
-            apischema.deserializer(fn)
-        for d in (1, "a", None, 1.5, [], True):
-            st.case("two_deserializers", order, repr(d))
-            got = run(lambda: deserialize(m.K, d))
-            alts = [run(lambda fn=fn, S=S: fn(deserialize(S, d))) for fn, S in ((fs[0], int if fs[0] is m.k_from_int else str), (fs[1], int if fs[1] is m.k_from_int else str))]
-            exp = next((a for a in alts if a[0] == "ok"), None)
-            if (exp is None) != (got[0] != "ok") or (exp is not None and got[1] != exp[1]):
-                viol("two_deserializers", f"{order}: deserialize(K, {d!r}) = {got}, alternatives in registration order give {alts}", order=order)
-        sch = deserialization_schema(m.K)
-        exp_types = ["integer", "string"] if order == "int_first" else ["string", "integer"]
-        if sch.get("type") != exp_types and [a.get("type") for a in sch.get("anyOf", [])] != exp_types:
-            viol("two_deserializers_schema", f"{order}: schema {sch}", order=order)
+        apischema.deserializer(m.k2_from_int)
+        apischema.deserializer(m.n_from_k2)
+        apischema.serializer(m.n_to_k2)
+        apischema.serializer(m.k2_to_int)
+        for d in (1, "a", None):
+            st.case("chain", repr(d))
+            got = run(lambda: deserialize(m.N, d))
+            ref = run(lambda: deserialize(int, d))
+            if got[0] != ref[0] or (got[0] == "ok" and got[1] != m.N(m.K2(ref[1]))) or (got[0] == "invalid" and got[1] != ref[1]):
+                viol("chain", f"deserialize(N, {d!r}) = {got}; int gives {ref}")
+        if serialize(m.N, m.N(m.K2(3))) != 3 or serialize(List[m.N], [m.N(m.K2(3))]) != [3]:
+            viol("chain_serialize", f"serialize(N(K2(3))) = {serialize(m.N, m.N(m.K2(3)))}")
+        if deserialization_schema(m.N) != deserialization_schema(int) or serialization_schema(m.N) != serialization_schema(int):
+            viol("chain_schema", f"{deserialization_schema(m.N)}")
         sys.modules.pop(m.__name__, None)
         apischema.cache.reset()
-    # -- chain N <- K2 <- int
-    m = exec_source(PRELUDE + SPECIAL)
-    apischema.deserializer(m.k2_from_int)
-    apischema.deserializer(m.n_from_k2)
-    apischema.serializer(m.n_to_k2)
-    apischema.serializer(m.k2_to_int)
-    for d in (1, "a", None):
-        st.case("chain", repr(d))
-        got = run(lambda: deserialize(m.N, d))
-        ref = run(lambda: deserialize(int, d))
-        if got[0] != ref[0] or (got[0] == "ok" and got[1] != m.N(m.K2(ref[1]))) or (got[0] == "invalid" and got[1] != ref[1]):
-            viol("chain", f"deserialize(N, {d!r}) = {got}; int gives {ref}")
-    if serialize(m.N, m.N(m.K2(3))) != 3 or serialize(List[m.N], [m.N(m.K2(3))]) != [3]:
-        viol("chain_serialize", f"serialize(N(K2(3))) = {serialize(m.N, m.N(m.K2(3)))}")
-    if deserialization_schema(m.N) != deserialization_schema(int) or serialization_schema(m.N) != serialization_schema(int):
-        viol("chain_schema", f"{deserialization_schema(m.N)}")
-    sys.modules.pop(m.__name__, None)
-    apischema.cache.reset()
-    # -- generic
-    m = exec_source(PRELUDE + SPECIAL)
-    apischema.deserializer(m.wrap)
-    apischema.serializer(m.unwrap)
-    for T, d in ((int, [1, 2]), (int, ["a"]), (str, ["a"]), (str, [1]), (int, []), (int, 0)):
-        st.case("generic", T.__name__, repr(d))
-        got = run(lambda: deserialize(m.Wrapper[T], d))
-        ref = run(lambda: deserialize(List[T], d))
-        if got[0] != ref[0] or (got[0] == "ok" and got[1] != m.Wrapper(ref[1])) or (got[0] == "invalid" and got[1] != ref[1]):
-            viol("generic", f"deserialize(Wrapper[{T.__name__}], {d!r}) = {got}; List gives {ref}")
-        if got[0] == "ok" and serialize(m.Wrapper[T], got[1]) != d:
-            viol("generic_serialize", f"{serialize(m.Wrapper[T], got[1])} != {d}")
-    for T in (int, str):
-        if deserialization_schema(m.Wrapper[T]) != deserialization_schema(List[T]):
-            viol("generic_schema", f"{deserialization_schema(m.Wrapper[T])}")
-    sys.modules.pop(m.__name__, None)
-    apischema.cache.reset()
-    # -- inherited / non inherited serializer
-    m = exec_source(PRELUDE + SPECIAL)
-    apischema.serializer(Conversion(lambda k: k.v, source=m.K, target=int))
-    st.case("inherited")
-    if serialize(m.KSub, m.KSub(4)) != 4 or serialize(m.KSub(4)) != 4 or serialize(List[m.KSub], [m.KSub(4)]) != [4]:
-        viol("inherited_serializer", "subclass does not inherit the serializer of its base")
-    if serialization_schema(m.KSub) != serialization_schema(int):
-        viol("inherited_serializer_schema", f"{serialization_schema(m.KSub)}")
-    sys.modules.pop(m.__name__, None)
-    apischema.cache.reset()
-    m = exec_source(PRELUDE + SPECIAL)
-    apischema.serializer(Conversion(lambda k: k.v, source=m.K, target=int, inherited=False))
-    st.case("not_inherited")
-    r = run(lambda: serialize(m.KSubNI, m.KSubNI(4), fall_back_on_any=False))
-    if r[0] == "ok":
-        viol("not_inherited_serializer", f"inherited=False serializer applied to a subclass: {r}")
-    if serialize(m.K, m.K(4)) != 4:
-        viol("not_inherited_serializer", "inherited=False serializer not applied to the class itself")
-    sys.modules.pop(m.__name__, None)
-    apischema.cache.reset()
-    # -- annotations of the converted class are merged in the schemas
-    m = exec_source(PRELUDE + SPECIAL)
-    apischema.deserializer(m.ka_from_int)
-    apischema.serializer(m.ka_to_int)
-    st.case("annotations")
-    for fn in (deserialization_schema, serialization_schema):
-        s = fn(m.KA)
-        if s.get("description") != "a K with annotations" or s.get("minimum") != 0 or s.get("type") != "integer":
-            viol("annotations_lost", f"{fn.__name__}(KA) = {s}")
-        s2 = fn(List[m.KA], all_refs=True)
-        if "KNamed" not in s2.get("$defs", {}) or s2.get("items") != {"$ref": "#/$defs/KNamed"}:
-            viol("type_name_lost", f"{fn.__name__}(List[KA], all_refs=True) = {s2}")
-    for d in (1, -1, "a"):
-        st.case("annotations", repr(d))
-        got = run(lambda: deserialize(m.KA, d))
-        if (d == 1) != (got[0] == "ok"):
-            viol("annotations_constraints", f"deserialize(KA, {d!r}) = {got} (schema(min=0) registered on KA)")
-    sys.modules.pop(m.__name__, None)
-    apischema.cache.reset()
-    # -- identity bypasses a registered conversion
-    m = exec_source(PRELUDE + SPECIAL)
-    apischema.deserializer(m.iddc_from_int)
-    apischema.serializer(m.iddc_to_int)
-    from apischema import identity
+    _guard('chain N <- K2 <- int', _sec_1)
+    def _sec_2():  # generic
+        m = exec_source(PRELUDE + SPECIAL)
+        apischema.deserializer(m.wrap)
+        apischema.serializer(m.unwrap)
+        for T, d in ((int, [1, 2]), (int, ["a"]), (str, ["a"]), (str, [1]), (int, []), (int, 0)):
+            st.case("generic", T.__name__, repr(d))
+            got = run(lambda: deserialize(m.Wrapper[T], d))
+            ref = run(lambda: deserialize(List[T], d))
+            if got[0] != ref[0] or (got[0] == "ok" and got[1] != m.Wrapper(ref[1])) or (got[0] == "invalid" and got[1] != ref[1]):
+                viol("generic", f"deserialize(Wrapper[{T.__name__}], {d!r}) = {got}; List gives {ref}")
+            if got[0] == "ok" and serialize(m.Wrapper[T], got[1]) != d:
+                viol("generic_serialize", f"{serialize(m.Wrapper[T], got[1])} != {d}")
+        for T in (int, str):
+            if deserialization_schema(m.Wrapper[T]) != deserialization_schema(List[T]):
+                viol("generic_schema", f"{deserialization_schema(m.Wrapper[T])}")
+        sys.modules.pop(m.__name__, None)
+        apischema.cache.reset()
+    _guard('generic', _sec_2)
+    def _sec_3():  # inherited / non inherited serializer
+        m = exec_source(PRELUDE + SPECIAL)
+        apischema.serializer(Conversion(lambda k: k.v, source=m.K, target=int))
+        st.case("inherited")
+        if serialize(m.KSub, m.KSub(4)) != 4 or serialize(m.KSub(4)) != 4 or serialize(List[m.KSub], [m.KSub(4)]) != [4]:
+            viol("inherited_serializer", "subclass does not inherit the serializer of its base")
+        if serialization_schema(m.KSub) != serialization_schema(int):
+            viol("inherited_serializer_schema", f"{serialization_schema(m.KSub)}")
+        sys.modules.pop(m.__name__, None)
+        apischema.cache.reset()
+        m = exec_source(PRELUDE + SPECIAL)
+        apischema.serializer(Conversion(lambda k: k.v, source=m.K, target=int, inherited=False))
+        st.case("not_inherited")
+        r = run(lambda: serialize(m.KSubNI, m.KSubNI(4), fall_back_on_any=False))
+        if r[0] == "ok":
+            viol("not_inherited_serializer", f"inherited=False serializer applied to a subclass: {r}")
+        if serialize(m.K, m.K(4)) != 4:
+            viol("not_inherited_serializer", "inherited=False serializer not applied to the class itself")
+        sys.modules.pop(m.__name__, None)
+        apischema.cache.reset()
+    _guard('inherited / non inherited serializer', _sec_3)
+    def _sec_4():  # annotations of the converted class are merged in the schemas
+        m = exec_source(PRELUDE + SPECIAL)
+        apischema.deserializer(m.ka_from_int)
+        apischema.serializer(m.ka_to_int)
+        st.case("annotations")
+        for fn in (deserialization_schema, serialization_schema):
+            s = fn(m.KA)
+            if s.get("description") != "a K with annotations" or s.get("minimum") != 0 or s.get("type") != "integer":
+                viol("annotations_lost", f"{fn.__name__}(KA) = {s}")
+            s2 = fn(List[m.KA], all_refs=True)
+            if "KNamed" not in s2.get("$defs", {}) or s2.get("items") != {"$ref": "#/$defs/KNamed"}:
+                viol("type_name_lost", f"{fn.__name__}(List[KA], all_refs=True) = {s2}")
+        for d in (1, -1, "a"):
+            st.case("annotations", repr(d))
+            got = run(lambda: deserialize(m.KA, d))
+            if (d == 1) != (got[0] == "ok"):
+                viol("annotations_constraints", f"deserialize(KA, {d!r}) = {got} (schema(min=0) registered on KA)")
+        sys.modules.pop(m.__name__, None)
+        apischema.cache.reset()
+    _guard('annotations of the converted class are merged in the schemas', _sec_4)
+    def _sec_5():  # identity bypasses a registered conversion
+        m = exec_source(PRELUDE + SPECIAL)
+        apischema.deserializer(m.iddc_from_int)
+        apischema.serializer(m.iddc_to_int)
+        from apischema import identity
 
-    for d in (1, {"a": 2}, {}, "x"):
-        st.case("identity", repr(d))
-        conv = run(lambda: deserialize(m.IdDC, d))
-        byp = run(lambda: deserialize(m.IdDC, d, conversion=identity))
-        exp_conv = ("ok", m.IdDC(d)) if isinstance(d, int) else None
-        if isinstance(d, int) and (conv != exp_conv or byp[0] == "ok"):
-            viol("identity_bypass", f"d={d!r}: registered -> {conv}, identity -> {byp}")
-        if isinstance(d, dict) and (byp != ("ok", m.IdDC(**d)) or conv[0] == "ok"):
-            viol("identity_bypass", f"d={d!r}: registered -> {conv}, identity -> {byp}")
-    if serialize(m.IdDC, m.IdDC(3)) != 3 or serialize(m.IdDC, m.IdDC(3), conversion=identity) != {"a": 3}:
-        viol("identity_bypass_serialize", f"{serialize(m.IdDC, m.IdDC(3))} / {serialize(m.IdDC, m.IdDC(3), conversion=identity)}")
-    if deserialization_schema(m.IdDC, conversion=identity).get("type") != "object" or deserialization_schema(m.IdDC).get("type") != "integer":
-        viol("identity_bypass_schema", f"{deserialization_schema(m.IdDC, conversion=identity)}")
-    sys.modules.pop(m.__name__, None)
-    apischema.cache.reset()
+        for d in (1, {"a": 2}, {}, "x"):
+            st.case("identity", repr(d))
+            conv = run(lambda: deserialize(m.IdDC, d))
+            byp = run(lambda: deserialize(m.IdDC, d, conversion=identity))
+            exp_conv = ("ok", m.IdDC(d)) if isinstance(d, int) else None
+            if isinstance(d, int) and (conv != exp_conv or byp[0] == "ok"):
+                viol("identity_bypass", f"d={d!r}: registered -> {conv}, identity -> {byp}")
+            if isinstance(d, dict) and (byp != ("ok", m.IdDC(**d)) or conv[0] == "ok"):
+                viol("identity_bypass", f"d={d!r}: registered -> {conv}, identity -> {byp}")
+        if serialize(m.IdDC, m.IdDC(3)) != 3 or serialize(m.IdDC, m.IdDC(3), conversion=identity) != {"a": 3}:
+            viol("identity_bypass_serialize", f"{serialize(m.IdDC, m.IdDC(3))} / {serialize(m.IdDC, m.IdDC(3), conversion=identity)}")
+        if deserialization_schema(m.IdDC, conversion=identity).get("type") != "object" or deserialization_schema(m.IdDC).get("type") != "integer":
+            viol("identity_bypass_schema", f"{deserialization_schema(m.IdDC, conversion=identity)}")
+        sys.modules.pop(m.__name__, None)
+        apischema.cache.reset()
+    _guard('identity bypasses a registered conversion', _sec_5)
     st.count("special_worlds", 8)
+
+
 
 
 GRAPHS = ["single", "value_error", "lazy"]
